@@ -53,6 +53,10 @@ type Ctx struct {
 	eff         *effects
 	errGlobalMemo map[*ssa.Global]bool
 	mx            *matrix
+	sizeHull      *[2]int64
+	fieldStoreIdx map[string][]*ssa.Store
+	fieldWhole    map[string]bool
+	hullMemo      map[string]*ival
 	funcDecls map[*types.Func]*ast.FuncDecl
 	prof      *Profile
 	profErr   []string
